@@ -157,6 +157,47 @@ func evScenarioBlocked(lg *seqLog, kind int, rng *rand.Rand) {
 	lg.raw("endscenario")
 }
 
+// scenario C: one goroutine; removals that remove nothing (an id removed twice, ids that were never issued) must
+// leave the other listeners alone
+func evScenarioRedundant(lg *seqLog, kind int, rng *rand.Rand) {
+	t := newTarget(kind)
+	n := 1 + rng.Intn(4)
+	lg.raw(fmt.Sprintf("escenario redundant kind=%d n=%d", kind, n))
+	ids := make([]uuid.UUID, n+1)
+	mk := func(k int) listenerFn {
+		return func(event string, val int, msg string, metadata interface{}) { lg.f("deliver %d %d", val, k) }
+	}
+	for k := 0; k < n; k++ {
+		lg.f("addbegin %d", k)
+		ids[k] = t.Add(mk(k))
+		lg.f("addend %d", k)
+	}
+	gone := -1
+	if n > 1 && rng.Intn(2) == 0 {
+		gone = rng.Intn(n)
+		lg.f("rembegin %d", gone)
+		t.Remove(ids[gone])
+		lg.f("remend %d", gone)
+	}
+	for k := 0; k < n+1+rng.Intn(3); k++ {
+		if gone >= 0 && rng.Intn(2) == 0 {
+			t.Remove(ids[gone]) // a second time
+		} else {
+			t.Remove(uuid.New()) // never issued
+		}
+	}
+	lg.f("emitbegin 1")
+	t.Emit(1)
+	lg.f("emitend 1")
+	lg.f("addbegin %d", n)
+	ids[n] = t.Add(mk(n))
+	lg.f("addend %d", n)
+	lg.f("emitbegin 2")
+	t.Emit(2)
+	lg.f("emitend 2")
+	lg.raw("endscenario")
+}
+
 // scenario B: random concurrent adds, removes and emits
 func evScenarioRandom(lg *seqLog, kind int, rng *rand.Rand) {
 	t := newTarget(kind)
@@ -236,6 +277,8 @@ func RunEventer(seed int64, n int, out io.Writer) {
 		kind := i % 4
 		if i%3 == 2 {
 			evScenarioRandom(lg, kind, rng)
+		} else if i%5 == 1 {
+			evScenarioRedundant(lg, kind, rng)
 		} else {
 			evScenarioBlocked(lg, kind, rng)
 		}
